@@ -92,7 +92,10 @@ func checkFraming(p m.Packet, d harness.Dialect) error {
 	switch v := pk.(type) {
 	case *rtcp.TransportLayerCC:
 		if int(v.Len()) != len(out) {
-			return fmt.Errorf("TWCC: Len() = %d, output %d", v.Len(), len(out))
+			if d.Has("twcc-len-uint16") && len(out) >= 1<<16 {
+				break // listed: Len() returns a uint16, so it cannot report 65536 octets or more
+			}
+			return fmt.Errorf("TWCC: Len() = %d, output is %d octets", v.Len(), len(out))
 		}
 	case *rtcp.CCFeedbackReport:
 		if v.Len() != len(out) {
@@ -107,7 +110,18 @@ var subC05 = harness.NewSub("c05-framing-and-size", func(c valCase, d harness.Di
 })
 
 // genC05Value: D plus deliberately unaligned variable-length parts.
+// oneIn200 is sampled uniformly (rapid biases integer ranges towards their ends).
+var oneIn200 = func() []bool { b := make([]bool, 200); b[137] = true; return b }()
+
 func genC05Value(t *rapid.T) (m.Packet, bool) {
+	if rapid.SampledFrom(oneIn200).Draw(t, "bigtwcc?") {
+		// a feedback packet of 64 KiB or more still fits the 16-bit length field (in words)
+		n := rapid.SampledFrom([]int{32757, 32758, 32760, 40000, 100000}).Draw(t, "bigtwcc.chunks")
+		v := &m.TWCC{Sender: 1, Media: 2, StatusCount: 1, Chunks: make([]m.TWCCChunk, n)}
+		v.Chunks[n-1] = m.TWCCChunk{Symbol: 0, Run: 1}
+		gen.FixTWCCHeader(v, false)
+		return m.Packet{Kind: m.KTWCC, TWCC: v}, true
+	}
 	p := genValue(t)
 	unaligned := false
 	for _, x := range leafKindsOf(p) {
@@ -176,7 +190,13 @@ func TestC05(t *testing.T) {
 		if unaligned {
 			cl = append(cl, "unaligned-variable-part")
 		}
-		harness.Record(subC05.Name, c, unaligned || c05ListAtEdge(p), cl...)
+		if p.Kind == m.KTWCC && len(p.TWCC.Chunks) > 30000 {
+			harness.Eval(subC05.Name, 1)
+			harness.Class("TWCC.64KiB-or-more", 1)
+			harness.NonTrivialHash(harness.Hash([]int{len(p.TWCC.Chunks)}))
+		} else {
+			harness.Record(subC05.Name, c, unaligned || c05ListAtEdge(p), cl...)
+		}
 		subC05.Check(rt, c)
 	})
 }
